@@ -84,9 +84,10 @@ def run_case(case):
 def configs(tier):
     out = []
 
-    def add(d, lmax, margin, reb, safety, D, s, version=6, boundary=True, towards=None, halflines=False, a=None, b=None):
+    def add(d, lmax, margin, reb, safety, D, s, version=6, boundary=True, towards=None, halflines=False, a=None, b=None, **opts):
         c = {"d": d, "lmin": 1, "lmax": lmax, "version": version, "rebalancing": reb, "boundary": boundary,
              "margin": margin, "safety": safety, "s": s}
+        c.update(opts)
         if a is not None:
             c["a"], c["b"] = a, b
         if towards:
@@ -115,7 +116,14 @@ def configs(tier):
         add(2, 3, 0.9, True, 0.1, 5, 1, towards=[[0.3, 0.3], [0.34, 0.8]])
         add(3, 2, 0.9, True, 0.1, 4, 1, towards=[[0.3, 0.3, 0.3]])
         add(1, 2, 0.9, True, 0.1, 3, 1, halflines=True)
+        # rarely used public constructor options (no adaptive scheme extension; volume-weighted error estimates)
+        for opt in ({"dim_adaptive": False}, {"use_volume_weighting": True}):
+            add(2, 2, 0.9, True, 0.1, 2, 1, **opt)
+            add(2, 2, 0.9, True, 0.1, 5, 1, towards=[[0.3, 0.3], [0.3, 0.8]], **opt)
     else:
+        for opt in ({"dim_adaptive": False}, {"use_volume_weighting": True}):
+            add(2, 2, 0.9, True, 0.1, 2, 2, **opt)
+            add(2, 3, 0.9, True, 0.0, 6, 1, towards=[[0.3, 0.3], [0.34, 0.8]], **opt)
         for safety in (0.0, 0.1, 0.5):
             add(1, 2, 0.9, True, safety, 3, 1, halflines=True)
         add(1, 3, 0.9, True, 0.1, 2, 1, halflines=True)
@@ -147,7 +155,8 @@ def main(ctx):
                            "history": [[[0, 0.0, 0.25, 1.0]], [[0, 0.0, 0.125, 1.0], [1, 0.5, 0.75, 0.9]]]})
     for config, D in configs(ctx.tier):
         tag = "d%d_lmax%d_m%s_reb%d_sf%s_D%d_s%d%s" % (config["d"], config["lmax"], config["margin"], config["rebalancing"],
-                                                      config["safety"], D, config["s"], ("_towards" if config.get("towards") else ("_halflines" if config.get("halflines") else "")) + ("_far" if config.get("a") else ""))
+                                                      config["safety"], D, config["s"], ("_towards" if config.get("towards") else ("_halflines" if config.get("halflines") else "")) + ("_far" if config.get("a") else "")) + \
+            "".join("_%s%d" % (k, bool(v)) for k, v in sorted(config.items()) if k in ("dim_adaptive", "use_volume_weighting"))
         ctx.bounds[tag] = core.bfs(ctx, config, D, tag=tag)
     return ctx.finish(
         rule="state = per-dimension interval lists reached by a history of benefit assignments; events = selected set S "
